@@ -11,6 +11,8 @@ From Coq Require Import List NArith ZArith Bool.
 Import ListNotations.
 Require Import RV.Lib.PyStr RV.Model.Path RV.Model.C05Text RV.Model.LoginMap RV.Model.Gate RV.Model.Htpasswd RV.Model.C05Compose.
 Require Import RV.Proofs.C05Gate RV.Proofs.C05GateEx RV.Proofs.C05Htpasswd RV.Proofs.C05HtpasswdEx RV.Proofs.C05GenEq RV.Proofs.C05Compose.
+Require RV.Model.LoginCache.
+Require Import RV.Proofs.C05LoginCache.
 Require RV.Gen.LoginMapC05Gen.
 Open Scope N_scope.
 
@@ -233,6 +235,32 @@ Print Assumptions C05_htpasswd_cache.
 Print Assumptions C05_htpasswd_cache_hit.
 Print Assumptions C05_htpasswd_init.
 Print Assumptions C05_htpasswd_no_crash.
+
+(* [auth] cache_logins = True: BaseAuth.login (Model/LoginCache.v, the model property C17 is about, `Vfix` = the code as it
+   is in the repository) in front of the htpasswd back-end (htpasswd_cache off, so the back-end is a function of the file
+   version).  After ANY history of attempts, clock advances and file changes, login(l, pw) returns a user u <> "" only if
+   u is exactly the mapped login and a version of the file -- the present one, or one of a moment of the history not older
+   than cache_successful_logins_expiry whole seconds -- has an entry for exactly that login whose non-empty digest
+   verifies exactly the presented password.  The statement is about the PAIR (login, password): pairs with equal
+   login ++ password concatenations cut at different places are different pairs (non-vacuity and this very situation:
+   Proofs/C05LoginCache.v, ex_login_cache_hyps). *)
+Theorem C05_htpasswd_login_cache :
+  forall ext_verify hcfg st (cfg : LoginCache.config) (t0 : Z) (f0 : ht_fversion)
+         (h : list (@LoginCache.event ht_fversion)) (l pw u : pystr) (cached : bool),
+    h_cache hcfg = false -> flags_ok hcfg st ->
+    let bk := ht_file_backend ext_verify hcfg st in
+    let s := fst (LoginCache.run bk LoginCache.Vfix cfg (LoginCache.init t0 f0) h) in
+    let m := LoginCache.map_login cfg l in
+    LoginCache.r_out (LoginCache.login_body LoginCache.Vfix cfg (bk (LoginCache.s_bk s)) (LoginCache.s_now s)
+                                            (LoginCache.s_cache s) l pw) = LoginCache.ORet u cached ->
+    u <> [] ->
+    u = m /\
+    (ht_entry_verifies ext_verify hcfg st (fst (fst (LoginCache.s_bk s))) m pw \/
+     exists tm f, In (tm, f) (LoginCache.moments bk LoginCache.Vfix cfg (LoginCache.init t0 f0) h)
+                  /\ (LoginCache.age_s (LoginCache.s_now s) tm <= LoginCache.c_exp_s cfg)%Z
+                  /\ ht_entry_verifies ext_verify hcfg st (fst (fst f)) m pw).
+Proof. exact c05_htpasswd_login_cache. Qed.
+Print Assumptions C05_htpasswd_login_cache.
 
 (* End to end, auth type htpasswd (cache off): a handler runs as u <> "" only if u is the mapped login, a safe
    name, and the file as it is now has an entry for u whose non-empty digest verifies the presented password. *)
